@@ -66,6 +66,13 @@ var plans = map[string]plan{
 		{Name: "events-rnd", Engine: "events", Policy: "rnd", PreemptP: 0.2, Steps: 60, Weight: 3},
 		{Name: "events-pct", Engine: "events", Policy: "pct", PctDepth: 3, Steps: 60, Weight: 2},
 	}, QuickRuns: 1500, QuickSecs: 60, ThoroughRuns: 200000, ThoroughSecs: 900},
+	"C14": {Variants: []variant{
+		{Name: "race-base-rnd", Profile: "base", Policy: "rnd", PreemptP: 0.05, Steps: 45, Race: true, Auto: true, Faults: with(confirmFaults, "xchan_reorder", "rest_read", "reload_valid", "node_loss", "app_remove_live"), FaultRate: 0.03, Weight: 3},
+		{Name: "race-gang-pct", Profile: "gang", Policy: "pct", PctDepth: 3, Steps: 45, Race: true, Auto: true, Faults: with(confirmFaults, "xchan_reorder", "rest_read", "node_loss"), FaultRate: 0.03, Weight: 2},
+		{Name: "race-preempt-rnd", Profile: "preempt", Policy: "rnd", PreemptP: 0.1, Steps: 55, Race: true, Auto: true, Faults: with(confirmFaults, "xchan_reorder", "rest_read", "reload_valid"), FaultRate: 0.03, Weight: 3},
+		{Name: "race-limits-rnd", Profile: "limits", Policy: "rnd", PreemptP: 0.05, Steps: 45, Race: true, Auto: true, Faults: with(confirmFaults, "xchan_reorder", "rest_read", "reload_valid", "reload_invalid", "malformed"), FaultRate: 0.03, Weight: 2},
+		{Name: "norace-base-pct", Profile: "base", Policy: "pct", PctDepth: 2, Steps: 60, Auto: true, Faults: with(confirmFaults, "xchan_reorder", "rest_read", "reload_valid", "node_loss"), FaultRate: 0.03, Weight: 2},
+	}, QuickRuns: 150, QuickSecs: 100, ThoroughRuns: 20000, ThoroughSecs: 1800},
 	"C13": {Variants: []variant{
 		{Name: "malformed-base", Profile: "base", Policy: "rtc", Steps: 90, Faults: []string{"malformed"}, FaultRate: 0.03, Weight: 3},
 		{Name: "malformed-gang", Profile: "gang", Policy: "rtc", Steps: 90, Faults: with(confirmFaults, "malformed", "node_loss", "app_remove_live"), FaultRate: 0.03, Weight: 3},
